@@ -54,6 +54,27 @@ class SymConnector(NumpyConnector):
         finally:
             g["np"] = saved
 
+    # ---- contract stubs for the matrix-function kernels (their own conformance is property C04)
+    def permanent(self, matrix, rows, cols):
+        from . import fockcommon as fc
+        r, c = fc.repeat_index([int(x) for x in rows]), fc.repeat_index([int(x) for x in cols])
+        if not r:
+            return 1.0
+        return fc.perm(numpy.asarray(matrix, dtype=object)[numpy.ix_(r, c)])
+
+    def loop_hafnian(self, matrix, diagonal, reduce_on):
+        from . import fockcommon as fc
+        idx = fc.repeat_index([int(x) for x in reduce_on])
+        A = numpy.asarray(matrix, dtype=object)[numpy.ix_(idx, idx)] if idx else numpy.zeros((0, 0), dtype=object)
+        dg = [numpy.asarray(diagonal, dtype=object)[i] for i in idx]
+        return fc.loop_hafnian_def(A, dg)
+
+    def hafnian(self, matrix, reduce_on):
+        from . import fockcommon as fc
+        idx = fc.repeat_index([int(x) for x in reduce_on])
+        A = numpy.asarray(matrix, dtype=object)[numpy.ix_(idx, idx)] if idx else numpy.zeros((0, 0), dtype=object)
+        return fc.loop_hafnian_def(A, [0] * len(idx))
+
     def powm(self, a, k):
         return xnp.linalg.matrix_power(a, k)
 
